@@ -23,10 +23,16 @@ func TestMain(m *testing.M) {
 
 var st = stats.New("cheaters")
 
-func prop(t *rapid.T) {
+func prop(t *rapid.T) { propWith(t, "") }
+
+// propShapes: the same property on the rare large shapes (65-70 validators, one block confirming several hundred
+// events, 66-70 same-sequence events of one validator).
+func propShapes(t *rapid.T) { propWith(t, dagen.DrawShape(t, "mass_fork")) }
+
+func propWith(t *rapid.T, shape string) {
 	// any subset of validators may fork; the run is followed until the instance reports that its
 	// <1/3-Byzantine assumption is broken (crit / Process error); blocks emitted before are checked
-	sc := dagen.GenScenario(t, 2, dagen.Params{MinEvents: 30, MaxEvents: 130, Forks: dagen.AnyFork, NonMaxFrames: false})
+	sc := dagen.GenScenario(t, 2, dagen.Params{MinEvents: 30, MaxEvents: 130, Forks: dagen.AnyFork, NonMaxFrames: false, Shape: shape})
 	cfgs := cons.Configs()
 	cfg := cfgs[rapid.IntRange(0, len(cfgs)-1).Draw(t, "cfg")]
 	// epoch switches either by the sealing block or (the instance never seals, processes the whole epoch and is
@@ -142,6 +148,9 @@ func prop(t *rapid.T) {
 	if withCheaters > 0 {
 		classes = append(classes, "block_with_cheaters")
 	}
+	if sh := sc.Epochs[0].Info.Shape; sh != "" {
+		classes = append(classes, "shape_"+sh)
+	}
 	st.Case(stats.Hash(scen.DescribeScenario(sc)), nontrivial > 0, classes...)
 	st.Class("blocks", int64(totalBlocks))
 	st.Class("blocks_with_cheaters", int64(withCheaters))
@@ -156,3 +165,5 @@ func prop(t *rapid.T) {
 }
 
 func TestC03Cheaters(t *testing.T) { rapid.Check(t, prop) }
+
+func TestC03Shapes(t *testing.T) { rapid.Check(t, propShapes) }
